@@ -600,3 +600,449 @@ Proof. C18_full_tac. Qed.
 Example C18_include_dump_read_full_nonvacuous_quotes_dollar :
   C18_full_case (of_string "/r/$v/a#1/a.dict") (of_string "/r/it's ""q""/b.dict").
 Proof. C18_full_tac. Qed.
+
+(* ================================================================================================== *)
+(* added from Properties/C18_add2.v (2026-10-01)                                              *)
+(* ================================================================================================== *)
+(* ---- C18 additions: the executable model of SDict.include (Paths.sd_include) ------------------------------- *)
+(* Proofs: Proofs/IncludeModel.v.  So far the chain theorems of C18 talk about the hand-written stand-in
+   sd_with_include da i name path; here the stand-in is tied to the model definition Paths.sd_include (id draw loop,
+   placeholder entry, include table row, counter), the definition is specified on any state and counter, shown total,
+   and the chain theorems are restated with it. *)
+From Coq Require Import String.
+From Coq Require Import NArith ZArith List Bool.
+From DictIO Require Import Chars Str Value Scalar KeyPath SDict Layout Lexer TokParser Reader Paths TreeSpec NativeSpec MiscSpec E2ESpec.
+From DictIO Require RereadTree RereadProofs RereadIncWrite RereadIncProofs E2EHoles.
+From DictIO Require Import IncludeChainProofs IncludeChainFull IncludeModel.
+Import ListNotations.
+
+Module C18_model_ex.
+  Definition a_top := of_string "/r/run 1/a.dict".
+  Definition a_deep := of_string "/r/run 1/v1.2/a.dict".
+  Definition b_same := of_string "/r/run 1/b.dict".
+  Definition b_sibling := of_string "/r/other dir/b.dict".
+  Definition b_cousin := of_string "/r/other dir/v1.2/b.dict".
+  Definition b_bsl := of_string "/r/o\d/b.dict".
+  Definition da : list (key * tree) :=
+    [(KS (of_string "x"), Leaf (SInt 1)); (KS (of_string "d"), Dict [(KS (of_string "y"), Leaf (SStr (of_string "two words")))])].
+  Definition db : list (key * tree) := [(KS (of_string "x"), Leaf (SInt 9)); (KS (of_string "z"), Leaf (SInt 3))].
+  Definition tb : str := to_string_plain db.
+  (* a state with comments, an expression, one include registered under id 3 and the placeholders 7 and 8 taken *)
+  Definition s_busy : sdict :=
+    mkSD [(KS (of_string "x"), Leaf (SInt 1));
+          (KS (of_string "INCLUDE000003"), Leaf (SStr (of_string "INCLUDE000003")));
+          (KS (of_string "INCLUDE000007"), Leaf (SInt 5));
+          (KS (of_string "d"), Dict [(KS (of_string "y"), Leaf (SInt 2))]);
+          (KS (of_string "INCLUDE000008"), Leaf (SStr (of_string "INCLUDE000008")));
+          (KS (of_string "LINECOMMENT000001"), Leaf (SStr (of_string "LINECOMMENT000001")))]
+         [(1%N, of_string "// note")] [(0%N, of_string "/* head */")]
+         [(3%N, (of_string "#include 'c.dict'", of_string "c.dict", of_string "/r/run 1/c.dict"))]
+         [(4%N, (of_string "$x + 1", of_string "EXPRESSION000004"))].
+  (* the placeholders on both sides of the wrap-around taken *)
+  Definition s_wrap : sdict :=
+    mkSD [(KS (of_string "INCLUDE999999"), Leaf (SInt 1)); (KS (of_string "INCLUDE000000"), Leaf (SInt 2));
+          (KS (of_string "x"), Leaf (SInt 3))] [] [] [] [].
+End C18_model_ex.
+
+(* ---- 1. a dict built in memory: sd_include returns the stand-in ------------------------------------------------ *)
+(* da = the data of a dict built in memory (no comments, no includes, no expressions), c = the counter, pa / pb = the
+   source files of the including and the included dict.  SDict.include draws the id i = counter_next c, appends the
+   placeholder entry INCLUDE<i>, registers (directive, name, pb) under i and leaves the counter at i: exactly
+   sd_with_include da i (include_name pa pb) pb.
+   Side conditions (each forced by a finding below): the placeholder INCLUDE<i> is not a key of da (otherwise the loop
+   draws again and another id is used); the name contains no backslash (otherwise the directive text kept in the table
+   has every backslash doubled, unlike the stand-in's).  No condition on the counter, the paths or the data otherwise. *)
+Theorem C18_model_include_fresh : forall da c pa pb,
+  amem (KS (iph (Z.to_N (counter_next c)))) da = false -> has_char 92%N (include_name pa pb) = false ->
+  sd_include (mkSD da [] [] [] []) c (dir_comps pa) (comps_of pb) pb =
+  Ok (sd_with_include da (Z.to_N (counter_next c)) (include_name pa pb) pb, counter_next c).
+Proof. exact model_include_fresh. Qed.
+Print Assumptions C18_model_include_fresh.
+
+Example C18_model_include_fresh_nonvacuous :
+  let da := C18_model_ex.da in let pa := C18_model_ex.a_deep in let pb := C18_model_ex.b_cousin in
+  amem (KS (iph (Z.to_N (counter_next 6)))) da = false /\ has_char 92%N (include_name pa pb) = false /\
+  sd_include (mkSD da [] [] [] []) 6 (dir_comps pa) (comps_of pb) pb =
+    Ok (sd_with_include da (Z.to_N (counter_next 6)) (include_name pa pb) pb, counter_next 6) /\
+  Z.to_N (counter_next 6) = 7%N /\ include_name pa pb = of_string "../../other dir/v1.2/b.dict" /\
+  (* across the wrap-around of the counter *)
+  sd_include (mkSD da [] [] [] []) 999999 (dir_comps pa) (comps_of pb) pb = Ok (sd_with_include da 0 (include_name pa pb) pb, 0%Z).
+Proof.
+  intros da pa pb.
+  assert (H1 : amem (KS (iph (Z.to_N (counter_next 6)))) da = false) by (vm_compute; reflexivity).
+  assert (H2 : has_char 92%N (include_name pa pb) = false) by (vm_compute; reflexivity).
+  refine (conj H1 (conj H2 (conj (C18_model_include_fresh da 6%Z pa pb H1 H2) (conj _ (conj _ _))))); [vm_compute; reflexivity ..|].
+  assert (H3 : amem (KS (iph (Z.to_N (counter_next 999999)))) da = false) by (vm_compute; reflexivity).
+  exact (C18_model_include_fresh da 999999%Z pa pb H3 H2).
+Qed.
+
+(* FINDING (model = library: SDict.include skips a taken placeholder): the placeholder of the first id drawn is a key of
+   the data; the include is registered under the NEXT id, so the result is not the stand-in with i = counter_next c
+   (it is the stand-in with id 8, and the counter is left at 8). *)
+Example C18_model_include_taken_finding :
+  let da := (KS (of_string "INCLUDE000007"), Leaf (SInt 5)) :: C18_model_ex.da in
+  let pa := C18_model_ex.a_top in let pb := C18_model_ex.b_sibling in
+  amem (KS (iph (Z.to_N (counter_next 6)))) da = true /\ has_char 92%N (include_name pa pb) = false /\
+  sd_include (mkSD da [] [] [] []) 6 (dir_comps pa) (comps_of pb) pb <>
+    Ok (sd_with_include da (Z.to_N (counter_next 6)) (include_name pa pb) pb, counter_next 6) /\
+  sd_include (mkSD da [] [] [] []) 6 (dir_comps pa) (comps_of pb) pb = Ok (sd_with_include da 8 (include_name pa pb) pb, 8%Z).
+Proof. vm_compute. repeat split; try reflexivity. intros H. discriminate H. Qed.
+
+(* FINDING (model = library): a backslash in a folder name.  The directive text stored in the include table has the
+   backslash doubled ('../o\\d/b.dict'), the stand-in's has not; data, name, path and counter agree, and the writer
+   does not use the stored directive text (it formats the name again), so the dumped texts agree as well. *)
+Example C18_model_include_backslash_finding :
+  let da := C18_model_ex.da in let pa := C18_model_ex.a_top in let pb := C18_model_ex.b_bsl in
+  amem (KS (iph (Z.to_N (counter_next 6)))) da = false /\ has_char 92%N (include_name pa pb) = true /\
+  match sd_include (mkSD da [] [] [] []) 6 (dir_comps pa) (comps_of pb) pb with
+  | Ok (s, c') =>
+      s <> sd_with_include da 7 (include_name pa pb) pb /\ c' = 7%Z /\
+      sd_data s = sd_data (sd_with_include da 7 (include_name pa pb) pb) /\
+      sd_inc s = [(7%N, (of_string "#include '../o\\d/b.dict'", of_string "../o\d/b.dict", pb))] /\
+      sd_inc (sd_with_include da 7 (include_name pa pb) pb) = [(7%N, (of_string "#include '../o\d/b.dict'", of_string "../o\d/b.dict", pb))] /\
+      to_string_sd s = to_string_sd (sd_with_include da 7 (include_name pa pb) pb)
+  | Raise _ => False
+  end.
+Proof. vm_compute. repeat split; try reflexivity. intros H. discriminate H. Qed.
+
+(* the first side condition is necessary as well: if sd_include leaves the counter at counter_next c (one draw), the
+   placeholder of that id was not a key of the data *)
+Theorem C18_model_include_fresh_only : forall da c from_dir to path s',
+  sd_include (mkSD da [] [] [] []) c from_dir to path = Ok (s', counter_next c) ->
+  amem (KS (iph (Z.to_N (counter_next c)))) da = false.
+Proof. exact model_include_fresh_only. Qed.
+Print Assumptions C18_model_include_fresh_only.
+
+Example C18_model_include_fresh_only_nonvacuous :
+  let da := C18_model_ex.da in let pa := C18_model_ex.a_top in let pb := C18_model_ex.b_sibling in
+  sd_include (mkSD da [] [] [] []) 6 (dir_comps pa) (comps_of pb) pb = Ok (sd_with_include da 7 (include_name pa pb) pb, counter_next 6) /\
+  amem (KS (iph (Z.to_N (counter_next 6)))) da = false.
+Proof.
+  intros da pa pb.
+  assert (H : sd_include (mkSD da [] [] [] []) 6 (dir_comps pa) (comps_of pb) pb = Ok (sd_with_include da 7 (include_name pa pb) pb, counter_next 6))
+    by (vm_compute; reflexivity).
+  exact (conj H (C18_model_include_fresh_only da 6%Z _ _ pb _ H)).
+Qed.
+
+(* MODEL-VS-CODE FINDING (differs from the library): the included dict's source file IS the folder of the including
+   file (to = from_dir).  The model's relative path is the empty component list: name "" and directive #include '';
+   pathlib's relative_to returns Path('.'), so the library registers the name "." and the directive `#include .`. *)
+Example C18_model_include_own_folder_finding :
+  let pa := of_string "/r/run/a.dict" in let pb := of_string "/r/run" in
+  include_name pa pb = [] /\
+  match sd_include sd_empty 0 (dir_comps pa) (comps_of pb) pb with
+  | Ok (s, _) => sd_inc s = [(1%N, (of_string "#include ''", [], pb))]
+  | Raise _ => False
+  end.
+Proof. vm_compute. split; reflexivity. Qed.
+
+(* ---- 2. the general specification: any state, any counter ------------------------------------------------------ *)
+(* If sd_include returns (s', c'):  c' is reached from c by k+1 draws of the counter, k at most the number of keys of s,
+   the first k ids drawn name INCLUDE placeholders that are keys of s and the last one does not;  the data of s' are
+   the data of s with the placeholder entry appended at the end (assignment to an absent key);  the line comment, block
+   comment and expression tables are unchanged;  the include table gets the row (directive, name, path) under the id
+   i = c' - every other row is as before;  every key of s keeps its value, and every key path that does not start at
+   the new entry leads to the same value as before.
+   ikey z = KS (iph (Z.to_N z)), the INCLUDE placeholder key of a counter value. *)
+Theorem C18_model_include_spec : forall s c from_dir to path s' c',
+  sd_include s c from_dir to path = Ok (s', c') ->
+  let name := join_slash (relative_path from_dir to) in
+  let directive := (of_string "#include " ++ format_string (replace_all [92%N] [92%N; 92%N] name))%list in
+  let i := Z.to_N c' in
+  let ph := placeholder w_INCLUDE i in
+  (exists k, (k <= List.length (sd_data s))%nat /\ c' = counter_iter (S k) c /\
+     (forall j, (1 <= j <= k)%nat -> amem (ikey (counter_iter j c)) (sd_data s) = true)) /\
+  amem (KS ph) (sd_data s) = false /\
+  sd_data s' = (sd_data s ++ [(KS ph, Leaf (SStr ph))])%list /\
+  sd_lc s' = sd_lc s /\ sd_bc s' = sd_bc s /\ sd_expr s' = sd_expr s /\
+  sd_inc s' = tset i (directive, name, path) (sd_inc s) /\
+  tlookup i (sd_inc s') = Some (directive, name, path) /\
+  (forall j, j <> i -> tlookup j (sd_inc s') = tlookup j (sd_inc s)) /\
+  alookup (KS ph) (sd_data s') = Some (Leaf (SStr ph)) /\
+  (forall k, k <> KS ph -> alookup k (sd_data s') = alookup k (sd_data s)) /\
+  (forall k v, alookup k (sd_data s) = Some v -> alookup k (sd_data s') = Some v) /\
+  (forall k p, k <> KS ph -> get_path (Dict (sd_data s')) (k :: p) = get_path (Dict (sd_data s)) (k :: p)) /\
+  (forall p v, p <> [] -> get_path (Dict (sd_data s)) p = Some v -> get_path (Dict (sd_data s')) p = Some v).
+Proof. exact model_include_spec. Qed.
+Print Assumptions C18_model_include_spec.
+
+(* non-vacuity: the state s_busy (comments, an expression, an include under id 3, the placeholders 7 and 8 taken),
+   counter at 6: two draws are skipped, the include gets id 9; the row of id 3, the nested entry d.y and the tables
+   are as before *)
+Example C18_model_include_spec_nonvacuous :
+  let s := C18_model_ex.s_busy in let pa := C18_model_ex.a_top in let pb := C18_model_ex.b_sibling in
+  exists s' c',
+    sd_include s 6 (dir_comps pa) (comps_of pb) pb = Ok (s', c') /\
+    c' = 9%Z /\ c' = counter_iter 3 6%Z /\
+    amem (ikey (counter_iter 1 6%Z)) (sd_data s) = true /\ amem (ikey (counter_iter 2 6%Z)) (sd_data s) = true /\
+    amem (KS (of_string "INCLUDE000009")) (sd_data s) = false /\
+    sd_data s' = (sd_data s ++ [(KS (of_string "INCLUDE000009"), Leaf (SStr (of_string "INCLUDE000009")))])%list /\
+    sd_lc s' = sd_lc s /\ sd_bc s' = sd_bc s /\ sd_expr s' = sd_expr s /\
+    tlookup 9%N (sd_inc s') = Some (of_string "#include '../other dir/b.dict'", of_string "../other dir/b.dict", pb) /\
+    tlookup 3%N (sd_inc s') = tlookup 3%N (sd_inc s) /\
+    tlookup 3%N (sd_inc s') = Some (of_string "#include 'c.dict'", of_string "c.dict", of_string "/r/run 1/c.dict") /\
+    get_path (Dict (sd_data s')) [KS (of_string "d"); KS (of_string "y")] = Some (Leaf (SInt 2)).
+Proof.
+  intros s pa pb.
+  destruct (sd_include s 6 (dir_comps pa) (comps_of pb) pb) as [[s' c']|e] eqn:E; [|vm_compute in E; discriminate E].
+  exists s', c'.
+  pose proof (C18_model_include_spec s 6%Z _ _ pb s' c' E) as H. cbv zeta in H.
+  assert (Ec : c' = 9%Z) by (vm_compute in E; injection E as _ Ec; symmetry; exact Ec).
+  destruct H as (_ & H2 & H3 & H4 & H5 & H6 & _ & H8 & H9 & _ & _ & _ & _ & H14).
+  subst c'. change (Z.to_N 9) with 9%N in *.
+  change (placeholder w_INCLUDE 9) with (of_string "INCLUDE000009") in *.
+  refine (conj eq_refl (conj eq_refl (conj _ (conj _ (conj _ (conj H2 (conj H3 (conj H4 (conj H5 (conj H6 (conj _ (conj (H9 3%N _) (conj _ _))))))))))))).
+  - vm_compute. reflexivity.
+  - vm_compute. reflexivity.
+  - vm_compute. reflexivity.
+  - rewrite H8. vm_compute. reflexivity.
+  - discriminate.
+  - rewrite (H9 3%N) by discriminate. vm_compute. reflexivity.
+  - apply H14; [discriminate|vm_compute; reflexivity].
+Qed.
+
+(* a dict with pairwise distinct keys at every level (a Python dict) stays one *)
+Theorem C18_model_include_wf : forall s c from_dir to path s' c',
+  sd_include s c from_dir to path = Ok (s', c') -> wf (Dict (sd_data s)) = true -> wf (Dict (sd_data s')) = true.
+Proof. exact model_include_wf. Qed.
+Print Assumptions C18_model_include_wf.
+
+Example C18_model_include_wf_nonvacuous :
+  let s := C18_model_ex.s_busy in let pa := C18_model_ex.a_top in let pb := C18_model_ex.b_sibling in
+  exists s' c', sd_include s 6 (dir_comps pa) (comps_of pb) pb = Ok (s', c') /\ wf (Dict (sd_data s)) = true /\
+                wf (Dict (sd_data s')) = true /\ List.length (sd_data s') = 7%nat.
+Proof.
+  intros s pa pb.
+  destruct (sd_include s 6 (dir_comps pa) (comps_of pb) pb) as [[s' c']|e] eqn:E; [|vm_compute in E; discriminate E].
+  exists s', c'. assert (Hw : wf (Dict (sd_data s)) = true) by (vm_compute; reflexivity).
+  refine (conj eq_refl (conj Hw (conj (C18_model_include_wf s 6%Z _ _ pb s' c' E Hw) _))).
+  vm_compute in E. injection E as Es _. rewrite <- Es. reflexivity.
+Qed.
+
+(* the converse: the exact result when the first k ids drawn are taken and the next one is free *)
+Theorem C18_model_include_skips : forall s c from_dir to path k,
+  (k <= List.length (sd_data s))%nat ->
+  (forall j, (1 <= j <= k)%nat -> amem (ikey (counter_iter j c)) (sd_data s) = true) ->
+  amem (ikey (counter_iter (S k) c)) (sd_data s) = false ->
+  let c' := counter_iter (S k) c in
+  let i := Z.to_N c' in
+  let name := join_slash (relative_path from_dir to) in
+  let directive := (of_string "#include " ++ format_string (replace_all [92%N] [92%N; 92%N] name))%list in
+  sd_include s c from_dir to path =
+  Ok (mkSD (sd_data s ++ [inc_kv i]) (sd_lc s) (sd_bc s) (tset i (directive, name, path) (sd_inc s)) (sd_expr s), c').
+Proof. exact model_include_skips. Qed.
+Print Assumptions C18_model_include_skips.
+
+(* non-vacuity: s_wrap holds INCLUDE999999 and INCLUDE000000, the counter is at 999998: two draws across the wrap-around
+   are skipped and the include gets id 1 *)
+Example C18_model_include_skips_nonvacuous :
+  let s := C18_model_ex.s_wrap in let pa := C18_model_ex.a_top in let pb := C18_model_ex.b_same in
+  (2 <= List.length (sd_data s))%nat /\
+  (forall j, (1 <= j <= 2)%nat -> amem (ikey (counter_iter j 999998%Z)) (sd_data s) = true) /\
+  amem (ikey (counter_iter 3 999998%Z)) (sd_data s) = false /\
+  sd_include s 999998 (dir_comps pa) (comps_of pb) pb =
+    Ok (mkSD (sd_data s ++ [inc_kv 1]) [] [] [(1%N, (of_string "#include b.dict", of_string "b.dict", pb))] [], 1%Z).
+Proof.
+  intros s pa pb.
+  assert (H1 : (2 <= List.length (sd_data s))%nat) by (vm_compute; repeat constructor).
+  assert (H2 : forall j, (1 <= j <= 2)%nat -> amem (ikey (counter_iter j 999998%Z)) (sd_data s) = true).
+  { intros j [Ha Hb]. destruct j as [|[|[|j]]].
+    - inversion Ha.
+    - vm_compute. reflexivity.
+    - vm_compute. reflexivity.
+    - exfalso. apply le_S_n, le_S_n in Hb. inversion Hb. }
+  assert (H3 : amem (ikey (counter_iter 3 999998%Z)) (sd_data s) = false) by (vm_compute; reflexivity).
+  refine (conj H1 (conj H2 (conj H3 _))).
+  rewrite (C18_model_include_skips s 999998%Z (dir_comps pa) (comps_of pb) pb 2 H1 H2 H3). vm_compute. reflexivity.
+Qed.
+
+(* ---- 3. totality ------------------------------------------------------------------------------------------------ *)
+(* The id draw loop ends: on every state with fewer than 10^6 keys, from every counter value the library can reach
+   (-1 is the start value, then 0..999999), sd_include returns Ok: the model's fuel (one more draw than s has keys) is
+   never exhausted.  Pigeonhole: length+1 successive ids are pairwise distinct (the counter cycles through
+   0..999999), so are their placeholder keys (pad6 is injective), and length+1 distinct keys are not all among the
+   length keys of s.  No hypothesis that the keys of s are pairwise distinct is needed, and no upper bound on c (above
+   999999 the counter falls back to 0 at the first draw).
+   BOUNDARY (comment only): a dict holding all 10^6 keys INCLUDE000000..INCLUDE999999 has 10^6 keys or more; on it the
+   model returns Raise E_Fuel, and the library's `while True` loop does not terminate (every id it draws is taken). *)
+Theorem C18_model_include_total : forall s c from_dir to path,
+  (-1 <= c)%Z -> (N.of_nat (List.length (sd_data s)) < 1000000)%N ->
+  exists s' c', sd_include s c from_dir to path = Ok (s', c').
+Proof. exact model_include_total. Qed.
+Print Assumptions C18_model_include_total.
+
+Theorem C18_model_include_no_fuel : forall s c from_dir to path,
+  (-1 <= c)%Z -> (N.of_nat (List.length (sd_data s)) < 1000000)%N ->
+  sd_include s c from_dir to path <> Raise E_Fuel.
+Proof. exact model_include_no_fuel. Qed.
+Print Assumptions C18_model_include_no_fuel.
+
+Example C18_model_include_total_nonvacuous :
+  let s := C18_model_ex.s_wrap in let pa := C18_model_ex.a_top in let pb := C18_model_ex.b_same in
+  (-1 <= 999998)%Z /\ (N.of_nat (List.length (sd_data s)) < 1000000)%N /\
+  (exists s' c', sd_include s 999998 (dir_comps pa) (comps_of pb) pb = Ok (s', c')) /\
+  sd_include s 999998 (dir_comps pa) (comps_of pb) pb <> Raise E_Fuel /\
+  (* all but the last draw of the fuel are used: three keys, INCLUDE000001 taken as well, counter at 999998 *)
+  match sd_include (mkSD ((KS (of_string "INCLUDE000001"), Leaf (SInt 0)) :: sd_data s) [] [] [] []) 999998 (dir_comps pa) (comps_of pb) pb with
+  | Ok (_, c') => c' = 2%Z
+  | Raise _ => False
+  end.
+Proof.
+  intros s pa pb.
+  assert (H1 : (-1 <= 999998)%Z) by discriminate.
+  assert (H2 : (N.of_nat (List.length (sd_data s)) < 1000000)%N) by reflexivity.
+  refine (conj H1 (conj H2 (conj (C18_model_include_total s 999998%Z _ _ pb H1 H2) (conj (C18_model_include_no_fuel s 999998%Z _ _ pb H1 H2) _)))).
+  vm_compute. reflexivity.
+Qed.
+
+(* FINDING (model only; the library's counter starts at -1 and never goes below): from a counter value below -1 the
+   model's draws stay negative for a while, Z.to_N maps them all to the id 0, and with INCLUDE000000 taken the fuel
+   runs out.  This is what forces -1 <= c. *)
+Example C18_model_include_negative_counter_finding :
+  let s := mkSD [(KS (of_string "INCLUDE000000"), Leaf (SInt 1))] [] [] [] [] in
+  (N.of_nat (List.length (sd_data s)) < 1000000)%N /\
+  sd_include s (-100) (dir_comps C18_model_ex.a_top) (comps_of C18_model_ex.b_same) C18_model_ex.b_same = Raise E_Fuel.
+Proof. vm_compute. split; reflexivity. Qed.
+
+(* ---- 4. the chain include + dump + read, with sd_include -------------------------------------------------------- *)
+(* C18_include_dump_read_partial restated with the model's include: the dict a is built in memory with data da, the
+   counter stands at c0, b is included with sd_include (from the folder of pa to pb), the result sa is dumped to pa; fs
+   holds the dumped text at pa and any unit ub at pb; pa is read (counter at c, any value).  Then: the include got the
+   id counter_next c0 (no draw was skipped), every ordinary top-level key of b's parse is a key of the read result,
+   every ordinary leaf of the parsed a is kept.
+   Side conditions = those of C18_include_dump_read_partial, minus `i < 10^6` (every id drawn is below a million) and
+   with i = the returned counter value.  plain_top da makes the first id free.  No condition on backslashes: the writer
+   formats the name again and does not use the directive text of the table row
+   (C18_model_include_dump_read_nonvacuous_backslash). *)
+Theorem C18_model_include_dump_read_partial : forall fs pa pb da c0 sa c0' c s c' pra ub,
+  norm_path pa = pa -> norm_path pb = pb -> name_ok (include_name pa pb) = true ->
+  plain_top da = true ->
+  sd_include (mkSD da [] [] [] []) c0 (dir_comps pa) (comps_of pb) pb = Ok (sa, c0') ->
+  contains (iph (Z.to_N c0')) (native_body da) = false ->
+  has_char c_hash (to_string_plain da) = false -> E2EHoles.nopair c_slash c_slash (to_string_plain da) = true ->
+  fs_lookup pa fs = Some (FNative (to_string_sd sa)) -> fs_lookup pb fs = Some ub ->
+  parse_unit true pa c (FNative (to_string_sd sa)) = Ok pra -> sd_inc (pr_sd pra) <> [] ->
+  read_plain fs pa true true c = Ok (s, c') ->
+  c0' = counter_next c0 /\
+  (exists c1 prb, parse_unit true (path_join (dir_of pa) (include_name pa pb)) c1 ub = Ok prb /\
+     forall k, ordinary_key k = true -> alookup k (sd_data (pr_sd prb)) <> None -> alookup k (sd_data s) <> None) /\
+  (forall k v, ordinary_key k = true -> ordinary_leaf v = true ->
+     alookup k (sd_data (pr_sd pra)) = Some (Leaf v) -> alookup k (sd_data s) = Some (Leaf v)).
+Proof. exact model_include_dump_read_partial. Qed.
+Print Assumptions C18_model_include_dump_read_partial.
+
+(* C18_include_dump_read restated with the model's include: no hypothesis on the parse.  Side conditions = those of
+   C18_include_dump_read, stated on the SDict sa that sd_include returns. *)
+Theorem C18_model_include_dump_read : forall fs pa pb da c0 sa c0' c s c' ub,
+  norm_path pa = pa -> norm_path pb = pb -> plain_top da = true ->
+  sd_include (mkSD da [] [] [] []) c0 (dir_comps pa) (comps_of pb) pb = Ok (sa, c0') ->
+  RereadIncWrite.rereadable_inc sa = true -> (-1 <= c)%Z ->
+  (Z.of_nat (List.length (RereadProofs.lc_list (RereadIncProofs.written_doc_inc sa))) <= 1000000)%Z ->
+  (Z.of_nat (List.length (RereadProofs.bc_list (RereadIncProofs.written_doc_inc sa))) <= 1000000)%Z ->
+  (Z.of_nat (List.length (RereadProofs.lit_list (RereadIncProofs.written_doc_inc sa))) <= 1000000)%Z ->
+  fs_lookup pa fs = Some (FNative (to_string_sd sa)) -> fs_lookup pb fs = Some ub ->
+  read_plain fs pa true true c = Ok (s, c') ->
+  c0' = counter_next c0 /\
+  exists pra,
+    parse_unit true pa c (FNative (to_string_sd sa)) = Ok pra /\
+    (exists c1 prb, parse_unit true (path_join (dir_of pa) (include_name pa pb)) c1 ub = Ok prb /\
+       forall k, ordinary_key k = true -> alookup k (sd_data (pr_sd prb)) <> None -> alookup k (sd_data s) <> None) /\
+    (forall k v, ordinary_key k = true -> ordinary_leaf v = true ->
+       alookup k (sd_data (pr_sd pra)) = Some (Leaf v) -> alookup k (sd_data s) = Some (Leaf v)) /\
+    RereadTree.cstrip (Dict (sd_data (RereadIncWrite.strip_inc (pr_sd pra)))) =
+      map_leaves written_value (RereadTree.cstrip (Dict da)).
+Proof. exact model_include_dump_read_full. Qed.
+Print Assumptions C18_model_include_dump_read.
+
+(* one placement: the dict is built at counter 6 (the include gets id 7), dumped, and read back at counter 0; every
+   hypothesis of both theorems, their conclusions, and the concrete result: z (only in b) arrives, x keeps a's value *)
+Definition C18_model_case (pa pb : str) : Prop :=
+  let da := C18_model_ex.da in let tb := C18_model_ex.tb in
+  exists sa c0' s c' pra,
+    let fs := [(pa, FNative (to_string_sd sa)); (pb, FNative tb)] in
+    norm_path pa = pa /\ norm_path pb = pb /\ name_ok (include_name pa pb) = true /\ plain_top da = true /\
+    sd_include (mkSD da [] [] [] []) 6 (dir_comps pa) (comps_of pb) pb = Ok (sa, c0') /\
+    contains (iph (Z.to_N c0')) (native_body da) = false /\
+    has_char c_hash (to_string_plain da) = false /\ E2EHoles.nopair c_slash c_slash (to_string_plain da) = true /\
+    fs_lookup pa fs = Some (FNative (to_string_sd sa)) /\ fs_lookup pb fs = Some (FNative tb) /\
+    parse_unit true pa 0 (FNative (to_string_sd sa)) = Ok pra /\ sd_inc (pr_sd pra) <> [] /\
+    read_plain fs pa true true 0 = Ok (s, c') /\
+    RereadIncWrite.rereadable_inc sa = true /\ (-1 <= 0)%Z /\
+    (Z.of_nat (List.length (RereadProofs.lc_list (RereadIncProofs.written_doc_inc sa))) <= 1000000)%Z /\
+    (Z.of_nat (List.length (RereadProofs.bc_list (RereadIncProofs.written_doc_inc sa))) <= 1000000)%Z /\
+    (Z.of_nat (List.length (RereadProofs.lit_list (RereadIncProofs.written_doc_inc sa))) <= 1000000)%Z /\
+    (* conclusion of the partial theorem *)
+    (c0' = counter_next 6 /\
+     (exists c1 prb, parse_unit true (path_join (dir_of pa) (include_name pa pb)) c1 (FNative tb) = Ok prb /\
+        forall k, ordinary_key k = true -> alookup k (sd_data (pr_sd prb)) <> None -> alookup k (sd_data s) <> None) /\
+     (forall k v, ordinary_key k = true -> ordinary_leaf v = true ->
+        alookup k (sd_data (pr_sd pra)) = Some (Leaf v) -> alookup k (sd_data s) = Some (Leaf v))) /\
+    (* conclusion of the full theorem *)
+    (c0' = counter_next 6 /\
+     exists pra',
+       parse_unit true pa 0 (FNative (to_string_sd sa)) = Ok pra' /\
+       (exists c1 prb, parse_unit true (path_join (dir_of pa) (include_name pa pb)) c1 (FNative tb) = Ok prb /\
+          forall k, ordinary_key k = true -> alookup k (sd_data (pr_sd prb)) <> None -> alookup k (sd_data s) <> None) /\
+       (forall k v, ordinary_key k = true -> ordinary_leaf v = true ->
+          alookup k (sd_data (pr_sd pra')) = Some (Leaf v) -> alookup k (sd_data s) = Some (Leaf v)) /\
+       RereadTree.cstrip (Dict (sd_data (RereadIncWrite.strip_inc (pr_sd pra')))) =
+         map_leaves written_value (RereadTree.cstrip (Dict da))) /\
+    c0' = 7%Z /\
+    alookup (KS (of_string "z")) (sd_data s) = Some (Leaf (SInt 3)) /\
+    alookup (KS (of_string "x")) (sd_data s) = Some (Leaf (SInt 1)).
+
+Ltac C18_model_tac :=
+  unfold C18_model_case; cbv zeta;
+  let Ei := fresh "Ei" in let E := fresh "E" in let Epa := fresh "Epa" in let Epa' := fresh "Epa'" in let Es := fresh "Es" in
+  let sa := fresh "sa" in let c0' := fresh "c0'" in let s := fresh "s" in let c' := fresh "c'" in let pra := fresh "pra" in
+  let Hn := fresh "Hn" in let Ei' := fresh "Ei'" in let Ev := fresh "Ev" in let Esa := fresh "Esa" in let Ec0 := fresh "Ec0" in
+  let H1 := fresh "H" in let H2 := fresh "H" in let H3 := fresh "H" in let H4 := fresh "H" in let H6 := fresh "H" in
+  let H7 := fresh "H" in let H8 := fresh "H" in let H9 := fresh "H" in let H10 := fresh "H" in let H12 := fresh "H" in
+  let P1 := fresh "P" in let P2 := fresh "P" in let H14 := fresh "H" in let H15 := fresh "H" in let H16 := fresh "H" in let H17 := fresh "H" in let H18 := fresh "H" in
+  match goal with
+  | |- exists _ _ _ _ _, _ /\ _ /\ _ /\ _ /\ ?inc = _ /\ _ =>
+      destruct inc as [[sa c0']|?] eqn:Ei; [|vm_compute in Ei; discriminate Ei]; exists sa, c0'
+  end;
+  match goal with
+  | |- exists _ _ _, _ /\ _ /\ _ /\ _ /\ _ /\ _ /\ _ /\ _ /\ _ /\ _ /\ parse_unit true ?pa 0%Z ?ua = _ /\ _ /\ read_plain ?fs _ _ _ _ = _ /\ _ =>
+      destruct (read_plain fs pa true true 0%Z) as [[s c']|?] eqn:E;
+        [|pose proof Ei as Ei'; vm_compute in Ei'; injection Ei' as Ei' _; rewrite <- Ei' in E; vm_compute in E; discriminate E];
+      destruct (parse_unit true pa 0%Z ua) as [pra|?] eqn:Epa;
+        [|pose proof Ei as Ei'; vm_compute in Ei'; injection Ei' as Ei' _; rewrite <- Ei' in Epa; vm_compute in Epa; discriminate Epa];
+      exists s, c', pra
+  end;
+  pose proof Ei as Ev; vm_compute in Ev; injection Ev as Esa Ec0;
+  match goal with
+  | |- ?h1 /\ ?h2 /\ ?h3 /\ ?h4 /\ _ /\ ?h6 /\ ?h7 /\ ?h8 /\ ?h9 /\ ?h10 /\ _ /\ ?h12 /\ _ /\ ?h14 /\ ?h15 /\ ?h16 /\ ?h17 /\ ?h18 /\ _ =>
+      assert (H1 : h1) by (vm_compute; reflexivity); assert (H2 : h2) by (vm_compute; reflexivity);
+      assert (H3 : h3) by (vm_compute; reflexivity); assert (H4 : h4) by (vm_compute; reflexivity);
+      assert (H6 : h6) by (rewrite <- Ec0; vm_compute; reflexivity);
+      assert (H7 : h7) by (vm_compute; reflexivity); assert (H8 : h8) by (vm_compute; reflexivity);
+      assert (H9 : h9) by (rewrite <- Esa; vm_compute; reflexivity); assert (H10 : h10) by (rewrite <- Esa; vm_compute; reflexivity);
+      assert (H12 : h12) by (intro Hn; pose proof Epa as Epa'; rewrite <- Esa in Epa'; vm_compute in Epa';
+                             injection Epa' as Epa'; rewrite <- Epa' in Hn; vm_compute in Hn; discriminate Hn);
+      assert (H14 : h14) by (rewrite <- Esa; vm_compute; reflexivity); assert (H15 : h15) by (vm_compute; discriminate);
+      assert (H16 : h16) by (rewrite <- Esa; vm_compute; discriminate); assert (H17 : h17) by (rewrite <- Esa; vm_compute; discriminate);
+      assert (H18 : h18) by (rewrite <- Esa; vm_compute; discriminate)
+  end;
+  pose proof (C18_model_include_dump_read_partial _ _ _ _ _ _ _ _ _ _ _ _ H1 H2 H3 H4 Ei H6 H7 H8 H9 H10 Epa H12 E) as P1;
+  pose proof (C18_model_include_dump_read _ _ _ _ _ _ _ _ _ _ _ H1 H2 H4 Ei H14 H15 H16 H17 H18 H9 H10 E) as P2;
+  rewrite Epa in P2;
+  refine (conj H1 (conj H2 (conj H3 (conj H4 (conj eq_refl (conj H6 (conj H7 (conj H8 (conj H9 (conj H10 (conj eq_refl (conj H12
+            (conj eq_refl (conj H14 (conj H15 (conj H16 (conj H17 (conj H18 (conj P1 (conj P2 _))))))))))))))))))));
+  split; [symmetry; exact Ec0|];
+  rewrite <- Esa in E; vm_compute in E; injection E as Es _; rewrite <- Es; vm_compute; split; reflexivity.
+
+(* non-vacuity: same folder, parent, sibling, cousin *)
+Example C18_model_include_dump_read_nonvacuous_same_folder : C18_model_case C18_model_ex.a_top C18_model_ex.b_same.
+Proof. C18_model_tac. Qed.
+Example C18_model_include_dump_read_nonvacuous_parent : C18_model_case C18_model_ex.a_deep C18_model_ex.b_same.
+Proof. C18_model_tac. Qed.
+Example C18_model_include_dump_read_nonvacuous_sibling : C18_model_case C18_model_ex.a_top C18_model_ex.b_sibling.
+Proof. C18_model_tac. Qed.
+Example C18_model_include_dump_read_nonvacuous_cousin : C18_model_case C18_model_ex.a_deep C18_model_ex.b_cousin.
+Proof. C18_model_tac. Qed.
+(* a backslash in a folder name: the stored directive text differs from the stand-in's (C18_model_include_backslash_finding),
+   the chain holds all the same *)
+Example C18_model_include_dump_read_nonvacuous_backslash : C18_model_case C18_model_ex.a_top C18_model_ex.b_bsl.
+Proof. C18_model_tac. Qed.
